@@ -250,6 +250,75 @@ def _(E):
     E.ensure("shares_no_mutable_object_with_the_source", disjoint(E, c, g))
 
 
+@family("C18/derive/times_matrix_elementary", ["Point", "Point_r", "Matrix", "Move", "Line", "Close", "QuadraticBezier",
+                                               "CubicBezier", "Arc"],
+        funcs=["Point.__mul__", "Matrix.point_in_matrix_space", "Matrix.is_identity", "Matrix.__matmul__",
+               "Matrix.__copy__", "PathSegment.__mul__", "Move.__imul__", "Linear.__imul__", "QuadraticBezier.__imul__",
+               "CubicBezier.__imul__", "Arc.__imul__", "Point.__imul__"], props=["C18", "C02"], timeout_ms=60000,
+        note="the matrix is arbitrary: the identity and every other special value are among its values")
+def _(E, kind):
+    """x * M for the elementary values: a new object that shares nothing with x or M, operands unchanged"""
+    M = mk_matrix(E, "M")
+    m0 = tuple(mat_fields(M))
+    if kind.startswith("Point"):
+        x = mk_point(E, "p")
+        x0 = pt(x)
+        r = E.call(x, "__mul__", M) if kind == "Point" else E.call(x, "__rmul__", M)
+        E.ensure("value_is_the_image", pt_eq(r, apply(m0, x0)))
+    elif kind == "Matrix":
+        x = mk_matrix(E, "N")
+        x0 = tuple(mat_fields(x))
+        r = E.call(x, "__mul__", M)
+        E.ensure("value_is_the_composition", mat_eq(r, compose(x0, m0)))
+    else:
+        if kind == "Arc":
+            from .arc import mk_arc_orth
+            x = mk_arc_orth(E)[0]
+            E.set(x, "start", mk_point(E, "s"))
+            E.set(x, "end", mk_point(E, "e"))
+            E.use_contract("Point.__imul__", _point_imul_frame)
+        else:
+            x = mk_seg(E, kind, "g")
+        r = E.call(x, "__mul__", M)
+    E.ensure("result_is_a_new_object_sharing_nothing_with_the_operands",
+             And(not E.same(r, x), disjoint(E, r, x), disjoint(E, r, M)))
+    E.ensure("matrix_unchanged", mat_eq(M, m0))
+    if kind.startswith("Point"):
+        E.ensure("point_unchanged", pt_eq(x, x0))
+    elif kind == "Matrix":
+        E.ensure("left_matrix_unchanged", mat_eq(x, x0))
+
+
+def _point_imul_frame(E, args, kwargs):
+    """frame contract of Point.__imul__ (proved in contracts/arc.py): writes x and y of the receiver only"""
+    p = args[0]
+    E.set(p, "x", E.real("fx%d" % (id(p) % 9973)))
+    E.set(p, "y", E.real("fy%d" % (id(p) % 9973)))
+    return p
+
+
+@family("C18/derive/plus_path", ["add", "iadd", "add_subpath"],
+        funcs=["Path.__add__", "Path.__iadd__", "Path.extend", "Path.__copy__", "Path._validate_connection",
+               "Path._validate_subpath"] + COPY_FUNCS, props=["C18", "C17"], kind="S",
+        note="representative operands Move,Line,Quadratic + Move,Line; values symbolic")
+def _(E, how):
+    p = mk_path(E, kinds=("Move", "Line", "QuadraticBezier"), name="p")
+    q = mk_path(E, kinds=("Move", "Line"), name="q")
+    before_p, before_q = scalars(E, p), scalars(E, q)
+    other = E.construct("Subpath", q, 0, 1) if how == "add_subpath" else q
+    if how == "iadd":
+        r = E.call(p, "__iadd__", other)
+        E.ensure("appended_segments_are_copies_of_the_operand", disjoint(E, r, q))
+    else:
+        r = E.call(p, "__add__", other)
+        E.ensure("result_shares_no_mutable_object_with_either_operand", And(disjoint(E, r, p), disjoint(E, r, q)))
+        E.ensure("left_operand_unchanged", And(*[a == b for a, b in zip(scalars(E, p), before_p)
+                                                 if not isinstance(a, (tuple, str, bool)) and a is not None]))
+    E.ensure("right_operand_unchanged", And(*[a == b for a, b in zip(scalars(E, q), before_q)
+                                              if not isinstance(a, (tuple, str, bool)) and a is not None]))
+    E.ensure("five_segments", len(E.items(E.get(r, "_segments"))) == 5)
+
+
 # --------------------------------------------------------------------------------------------------
 # joints repaired by the path never alias the neighbour's Point object
 # --------------------------------------------------------------------------------------------------
